@@ -316,7 +316,7 @@ func main() {
 		return
 	}
 	r := report.New("C06", tier, "model_checking")
-	r.Rule = "E1: every structure tree of the six GeoJSON types with 1..3 members (first member non-empty, later members possibly empty), lengths 0..2(3) x every rotation of 19 finite float64 patterns (full product for points; every ordered pattern pair alternating between neighbouring vertices) : Encode text re-read with json.Number into a generic tree must be {type, coordinates} nested exactly as the type requires with [x,y] literals parsing bit-exactly; Decode(Encode(g)) bit-identical, also with every ring / line of >= 3 vertices closed by repeating its first vertex; the bytes returned by Encode unchanged by a later Encode call; each single coordinate slot replaced by NaN/+Inf/-Inf must make Encode fail; unsupported types rejected; geometries of 63..1000 members / vertices. Non-trivial = geometries with >= 2 members."
+	r.Rule = "E1: every structure tree of the six GeoJSON types with 1..3 members (first member non-empty, later members possibly empty), lengths 0..2(3) x every rotation of 19 finite float64 patterns (full product for points; every ordered pattern pair alternating between neighbouring vertices) : Encode text re-read with json.Number into a generic tree must be {type, coordinates} nested exactly as the type requires with [x,y] literals parsing bit-exactly; Decode(Encode(g)) bit-identical, also with every ring / line of >= 3 vertices closed by repeating its first vertex; the bytes returned by Encode unchanged by a later Encode call; each single coordinate slot replaced by NaN/+Inf/-Inf must make Encode fail; unsupported types rejected; geometries of 63..5000 members / vertices. Non-trivial = geometries with >= 2 members."
 	cfg := geomgen.Config{MaxMembers: 3, Lens: []int{0, 1, 2, 3}, FlatMax: 3, PolyRings: 2}
 	if tier == "thorough" {
 		cfg = geomgen.Config{MaxMembers: 3, Lens: []int{0, 1, 2, 3}, FlatMax: 4, PolyRings: 3}
@@ -429,7 +429,7 @@ func main() {
 	// many members: counts around 64 and beyond (a decoder or encoder may switch
 	// strategy with the size)
 	for _, kind := range []geomgen.Kind{geomgen.KLineString, geomgen.KMultiLineString, geomgen.KPolygon, geomgen.KMultiPolygon, geomgen.KMultiPoint} {
-		for _, sz := range []int{63, 64, 65, 100, 257, 1000} {
+		for _, sz := range []int{63, 64, 65, 100, 257, 1000, 4095, 4096, 4097, 5000} {
 			c := Case{Skel: geomgen.Skel{Kind: kind}, Rot: sz % 19, Many: sz, Bad: -1}
 			n++
 			nontrivial++
